@@ -96,6 +96,15 @@ Section Mon.
     allowed && has_src (c_rx c) y
     && (let g := index_of y (cli s) 0 in (g <? 0) || (c_maxgen c <=? g)).
 
+  (** after a fallback the obligation of rule (d) starts afresh: only datagrams that arrive from
+      the client's address AFTER the server gave that path up can make it migrate again *)
+  Definition reset_good_opt (o : option cst) : option cst :=
+    match o with
+    | Some c => Some (mkc (c_rem c) (c_val c) (c_st c) (c_pv c) (c_pto c) (c_rx c) (c_to c) (c_elig c) (c_s2base c)
+                          (c_lsent c) (c_lrecv c) (c_mprev c) (c_budget c) (c_maxgen c) 0)
+    | None => None
+    end.
+
   Definition probe_server (s : st) (c : cst) (r : list Z) : option cst :=
     let t := rtime r in
     let stt := pf r 0 in let val := pf r 1 in let pto := pf r 12 in
@@ -125,12 +134,12 @@ Section Mon.
         else None
       else
         (* fallback to the most recently validated path *)
-        if due && (c_val c =? 0) && (rem =? c_mprev c) && (prevp =? 0) then keep (-1) (0, 0, 0) else None
+        if due && (c_val c =? 0) && (rem =? c_mprev c) && (prevp =? 0) then reset_good_opt (keep (-1) (0, 0, 0)) else None
     else
       if (c_val c =? 0) && (val =? 1) then
         (* validated by a response from the path's own address, or fallback onto the same address *)
         if has_src (c_rx c) x then keep (-1) (0, 0, 0)
-        else if due && (c_mprev c =? x) && (prevp =? 0) then keep (-1) (0, 0, 0) else None
+        else if due && (c_mprev c =? x) && (prevp =? 0) then reset_good_opt (keep (-1) (0, 0, 0)) else None
       else if (c_val c =? 1) && (val =? 0) then
         (* away and back within one batch of deliveries *)
         if allowed && has_other (c_rx c) x && has_src (c_rx c) x && after_mig_ok c r rem
